@@ -67,7 +67,7 @@ theorem C15_script_skip_cause (tcs : List TC) (script : Status) (outs : List Out
 /-! Non-vacuity: custom skip code 7 on the second of three test cases. -/
 example :
     (execAll none (fun i _ => (⟨.code (if i = 1 then 7 else 0), true, true⟩, 0))
-      [⟨none, .stdout, none, none, true⟩, ⟨none, .stdout, some 7, none, true⟩, ⟨none, .stdout, none, none, true⟩]).1
+      [⟨none, .stdout, none, none, true, 0⟩, ⟨none, .stdout, some 7, none, true, 0⟩, ⟨none, .stdout, none, none, true, 0⟩]).1
       = .skipped 1 := by decide
 
 /-! ## through the composition: `scrut test` on one document (`Model/TestRun.lean`) -/
